@@ -431,3 +431,12 @@ Proof.
     destruct (Client.list_eqb _ _); [discriminate|intros [= <-]; apply drop_cur_clears].
   - intros E. injection E as E1 E2. exfalso. cbn [fst] in NW. apply NW. rewrite E1. reflexivity.
 Qed.
+
+(* "on connect": a connection attempt nobody answers ends exactly at the attempt's deadline, as a failed attempt (time-out kind),
+   without opening a connection and without touching the current one *)
+Lemma unanswered_connect_ends_at_the_deadline cfg d w s rest :
+  w_scripts w = s :: rest -> cs_refused s = false -> cs_silent s = true ->
+  exists w', connect cfg d w = CErr 3 w' /\ w_now w' = d /\ w_conns w' = w_conns w /\ w_cur w' = w_cur w /\ w_scripts w' = rest.
+Proof.
+  intros Hs Hr Hq. unfold connect. rewrite Hs, Hr, Hq. eexists. split; [reflexivity|]. repeat split.
+Qed.
